@@ -58,7 +58,8 @@ FASTOR_INLINE void assign ##ASSIGN_TYPE (AbstractTensor<Derived,DIM> &dst, const
         assign ##OP_ASSIGN_TYPE (dst.self(), src.rhs().self());\
     }\
     else{\
-        const Derived tmp(dst.self());\
+        /* the right operand refers to the destination: evaluate it on the original contents first */\
+        const typename TRhs::result_type tmp(src.rhs().self());\
         assign ##ASSIGN_TYPE (dst.self(), src.lhs().self());\
         assign ##OP_ASSIGN_TYPE (dst.self(), tmp);\
     }\
